@@ -132,7 +132,12 @@ func buildModule(s *modSpec) []byte {
 	}
 	// c0..c3
 	for i := 0; i < nCFuncs; i++ {
-		f := wb.Func{Results: T(i32), Body: wb.I32Const(int32(s.FnConst[i]))}
+		// result depends on the instance's global 0: a funcref leaked from another instance would show
+		g0 := wb.GlobalGet(0)
+		if s.Globals[0].Bits == 64 {
+			g0 = wb.Cat(g0, wb.Op(wasm.OpcodeI32WrapI64))
+		}
+		f := wb.Func{Results: T(i32), Body: wb.Cat(wb.I32Const(int32(s.FnConst[i])), g0, wb.Op(wasm.OpcodeI32Add))}
 		if i == nCFuncs-1 {
 			f.Params = T(i32)
 		}
